@@ -14,7 +14,16 @@ import (
 )
 
 func zzCreate(p *Processor, l, supi string) (ref string, req models.ChfConvergedChargingChargingDataRequest) {
+	return zzCreateNamed(p, l, supi, -1)
+}
+
+// zzCreateNamed: as zzCreate with a consumer name of nameLen arbitrary bytes
+// (nameLen < 0: the default length).
+func zzCreateNamed(p *Processor, l, supi string, nameLen int) (ref string, req models.ChfConvergedChargingChargingDataRequest) {
 	req = zzCreateReq(l, supi)
+	if nameLen >= 0 {
+		req.NfConsumerIdentification.NFName = vx.String(l+".name", nameLen)
+	}
 	c := &gin.Context{}
 	p.HandleChargingdataInitial(c, req)
 	vx.Assert("create answered 201", vx.HTTPStatus(c) == 201)
@@ -72,8 +81,14 @@ func ZZ_C02_UsageRecorded() {
 	vx.Assume(rg >= 0)
 	vx.Assume(rg <= 127)
 	zzAccount(zzSupi, rg, 1000000, 10)
-	refA, reqA := zzCreate(p, "A", zzSupi)
-	refB, _ := zzCreate(p, "B", zzSupi)
+	// consumer names of different lengths: one session reference may be a
+	// proper prefix of the other (names "" and "-0x": <supi>-0 and <supi>-0x-1)
+	lenA, lenB := 2, 2
+	if vx.Choice("namelens", 2) == 1 {
+		lenA, lenB = 0, 3
+	}
+	refA, reqA := zzCreateNamed(p, "A", zzSupi, lenA)
+	refB, _ := zzCreateNamed(p, "B", zzSupi, lenB)
 	ue, found := chf_context.GetSelf().ChfUeFindBySupi(zzSupi)
 	vx.Assert("subscriber context exists", found)
 	if !found {
